@@ -221,8 +221,9 @@ def check(ctx):
                     "extension name and value are the two sides of the `name=value` split of the acme_ext parameter", [GEN, "extension-source"])
         # order: value popped first (last element), then name
     ext_ap = [c_ for c_ in ap if any(x.is_("openssl::x509::X509Extension::new") for x in arg_origins(c_, 1).calls)]
-    ctx.require(R5, bool(ext_ap), "%s:%s" % (g.file, g.line), "the acmeIdentifier extension is appended to the certificate", [GEN, "extension-appended"])
-    ie = [c_ for c_ in g.calls_to("core::str::<impl str>::is_empty") if arg_origins(c_, 0).has_leaf("param:4")]
+    if ext_rows is None:
+        ctx.require(R5, bool(ext_ap), "%s:%s" % (g.file, g.line), "the acmeIdentifier extension is appended to the certificate", [GEN, "extension-appended"])
+    ie = [] if ext_rows is not None else [c_ for c_ in g.calls_to("core::str::<impl str>::is_empty") if arg_origins(c_, 0).has_leaf("param:4")]
     from ..util import call_true_false_edges
     for c_ in ie:
         t, f = call_true_false_edges(g, c_)
